@@ -111,6 +111,9 @@ def check(prop, tier):
         lines = [l for l in alllines if re.search(r'\\"old\\":\\"a\\",\\"new\\":\\"b\\"', l)]
         os.unlink(out)
         pick = rnd.sample(lines, min(len(lines), 1200 if tier == 'quick' else 15000))
+        # two different old names for one new name (nothing in the series may be dispatched under the shared name)
+        both = [l for l in lines if re.search(r'\\"old\\":\\"d/c\\",\\"new\\":\\"b\\"', l)]
+        pick += both if len(both) <= 600 else rnd.sample(both, 600 if tier == 'quick' else 6000)
         # "no file is ever loaded or written by two workers": patches with two file patches for different files (their
         # file patches are dealt out to the workers one by one), followed by a patch that touches one of them again
         multi = []
